@@ -85,6 +85,7 @@ REQUIRED_BUCKETS = ["sign:virtual-true", "sign:first-occurrence", "light:offset"
                     "read-route:explicit-format", "read-route:direct", "read-route:reopen", "read-route:lanelet-assignment",
                     "read-route:lanelet-network"]
 WORKERS = {"quick": 1, "thorough": 8}
+EXTRA_MODULES = ["CRProps.T02"]      # translator tie: Gen.SrcC02 (regenerated from the repo every run) = hand model
 
 logging.disable(logging.CRITICAL)
 
